@@ -83,6 +83,12 @@ func (p *parser) parse() (pq *proto.Query, err error) {
 
 	}
 
+	// the whole input has to be consumed; anything left over (including a lexer error)
+	// means the input is not a query.
+	if p.peek().typ != itemEOF {
+		p.errorf("unexpected %s after end of query", p.next())
+	}
+
 	pq = &proto.Query{
 		Expr:    expr,
 		GroupBy: groupBy,
@@ -432,8 +438,10 @@ func lexValue(l *lexer) stateFn {
 
 	if seenFinalQuote || r != eof {
 		l.emit(itemValue)
+		return lexText
 	}
-	return lexText
+
+	return l.errorf("unterminated string: %s", l.input[l.start:])
 }
 
 func lexPlaceholder(l *lexer) stateFn {
